@@ -6,13 +6,13 @@ import os
 VERIF = os.path.dirname(os.path.dirname(os.path.abspath(__file__)))
 
 # id -> (technique, level text, level note, design ref)
-CORE_NOTE = 'Trusted: harness-owned input/action/output plugins around the real Pipeline, streams, pools, Batcher and RetriableBatcher; action chain limited to a filter/split action, a selective join-like action and a post-filter; small-scope model (<=4 events, 2 processors, 2 workers); real schedules are sampled (scripted + random), not exhaustive; property monitors evaluated by TLC on every recorded step.'
+CORE_NOTE = 'Trusted: harness-owned input/action/output plugins around the real Pipeline, streams, pools, Batcher and RetriableBatcher; action chain limited to a filter/split action (children passing or held), a selective join-like action and a post-filter; inputs that refuse events themselves; small-scope model (<=4 events, 2 processors, 2 workers); real schedules are sampled (scripted + random), not exhaustive; property monitors evaluated by TLC on every recorded step.'
 
 CHECKS = {
     "C07": ("TLA+ model of a crash-consistent file system + the save protocol of offsetDB.save / offset.Save (deviation switches; residual / "
             "faithful / fixed configs) + byte-level transcription of the offsets-file writer and parser, checked by TLC; TLC fault schedules "
             "executed by the real code under strace with injected syscall failures, syscall traces validated by TLC (OffsetsFileTrace), every "
-            "crash-allowed disk content loaded by the real load(), every enumerated job table round-tripped through real save/load",
+            "crash-allowed disk content loaded by the real load(), every enumerated job table (offsets incl. 0, names incl. format directives and other special bytes) round-tripped through real save/load; truncate/commit/save/load sequences on the real code",
             "TLC proves AlwaysLoadable / NeverAhead / DurableBeforeReplace / FailedStepKeepsOld on every behaviour in which no named deviation fired "
             "(2 jobs x 2 streams, commits interleaved with saves, every single and double step failure, every crash view) and the writer/parser "
             "round trip outside the D8 class; the real code is bound by strace trace validation of every fault shape and real load() of all "
@@ -21,7 +21,7 @@ CHECKS = {
             "partial failing writes only at model level; commit placements sampled; directory-entry durability not demanded.", "DESIGN.md §6 C07"),
     "C11": ("TLA+ transcription of serveBulk/processBulk/processChunk model-checked by TLC against the declarative SplitOnNL oracle (serial and "
             "two interleaved requests, spec mutants rejected); every exported case replayed on the real plugin (Start with address off, ServeHTTP) "
-            "plain and gzip, plus seeded long-line and concurrent families",
+            "plain and gzip (also truncated gzip payloads and ErrUnexpectedEOF bodies), plus seeded long-line and concurrent families, blocked-In windows for pooled buffers and the pooled gzip readers (object identity in the spec)",
             "TLC proves on all bodies over {a,\\r,\\n} up to the bound x all splits into reads x EOF/err flavours x empty reads x a second request "
             "reusing pooled buffers that exactly SplitOnNL(body) is handed over, 200 only afterwards and never on a reader error, and that two "
             "interleaved requests never share a source id or bytes; the real plugin must produce the same In calls and status position.",
@@ -30,7 +30,7 @@ CHECKS = {
     "C14": ("declarative three-valued TLA+ evaluator of the documented do_if / match_fields semantics + transcription of the code's short-cut "
             "evaluation, model-checked against each other by TLC (named deviation switches); every exported rule built through the real config "
             "path and compared on every event with doif.Checker.Check, processor.doActions/isMatch (two event orders, and at the head of a chain whose last "
-            "action holds a run: ActionChain.tla) and end to end via fd.SetupActions",
+            "action holds a run, and as child events through processor.Spawn: ActionChain.tla) and end to end via fd.SetupActions (also behind the real split plugin); ts_cmp against now with shifts; multi-byte characters",
             "TLC proves on all rules in scope (every field op x value lists x case flag, regexp family, length/int/timestamp/type leaves x six "
             "comparators, all and/or/not trees to depth 2-3, and/or/and_prefix/or_prefix x exact/list/regexp x invert) x all small events that the "
             "transcribed evaluation equals the documented value outside four named defect classes; the real code must give the documented value on "
@@ -39,7 +39,7 @@ CHECKS = {
             "silent the oracle accepts both outcomes; four known findings excused only under narrow signatures.", "DESIGN.md §6 C14"),
     "C15": ("TLA+ transcriptions of join.Do/flush (+ the processor's addressing of events and time-outs for a two-action chain) and of the k8s "
             "MultilineAction.Do, model-checked by TLC against a declarative Runs/Output oracle; every exported (case, time-out placement) replayed on "
-            "the real join, join_template and k8s plugins; timed runs of the real pipeline checked per stream against the TLC table",
+            "the real join, join_template and k8s plugins; timed runs of the real pipeline (join and join_template, also with the real discard action behind them) checked per stream against the TLC table; stream-level windows of the shared core harness",
             "TLC proves for all class sequences <=5/6 x time-out placements x max_event_size x negate/templates (and all k8s fragment sequences x "
             "limits x cut-off x split) that the transcriptions output exactly Output(seq, TO) with the code's deviations as named switches; all cases "
             "are executed on the real plugins and real-pipeline runs must show the same per-stream output, no cross-stream merge, no panic and a flush "
@@ -49,7 +49,7 @@ CHECKS = {
     "C16": ("TLA+ transcription of inMemoryLimiter.isAllowed / getDistrData / rebuildBuckets model-checked by TLC against the declarative per-key, "
             "per-bucket, per-share budget statement (+ 8 spec mutants that must be rejected); every exported history replayed step by step on the "
             "real inMemoryLimiter and the real Plugin.Do with the statement re-evaluated on the real pass/discard history; limiter expiry (Maintain) and "
-            "the concurrent getOrAdd protocol (SpecMap) specified too, the latter raced on 8 real plugin instances",
+            "the concurrent getOrAdd protocol (SpecMap) and rule selection with several conditions (SpecRule) specified too; getOrAdd raced on 8 real plugin instances, rules through the real Start in several written orders",
             "TLC proves on all small-scope histories (1-2 keys, 3-5 events, buckets_count 1-4, limits 0-4, count/size kind, distribution, event times "
             "inside/outside/ahead of the window, clock jumps) that the ring/rotation/re-map/add-then-compare/steal logic never passes more than the "
             "limit or share, never rejects under the limit and decides each key from its own sub-history; all histories are executed on the real "
@@ -58,7 +58,7 @@ CHECKS = {
             "statement leaves open are not constrained; non-monotone clock gives drift warnings only.", "DESIGN.md §6 C16"),
     "C17": ("functional TLA+ specification of masking over the regexp engine's own submatch table, TLC-checked on all small abstract tables "
             "together with a step transcription of maskValue; every logged execution of the real Plugin.Do validated by TLC (MaskTrace.tla) against "
-            "the same predicates",
+            "the same predicates; MaskDoIf.tla (do_if decided on the event as it arrived) and MaskRules.tla (match rules shared by plugin instances) with stress families on shared configurations",
             "TLC shows on every abstract table (<=4 characters, <=2 matches, <=2 groups, all group lists and modes) that the transcribed loop returns "
             "only acceptable outputs and fails exactly in the named D13 situations; 6x10^4 (quick) to 5.6x10^5 (thorough) real executions must satisfy "
             "OutsideKept, SecretGone, exact rendering where ranges are disjoint and ascending, applied/metric equivalence and tree scope.",
@@ -66,7 +66,7 @@ CHECKS = {
             "empty selections left open; do_if and non-object roots not covered; D13 and D18 carried as known findings.", "DESIGN.md §6 C17"),
     "C18": ("TLA+ transcription of ParseFieldSelector, ParseNestedFields, keep_fields.traverseFieldsTree (depth buffers) and remove_fields' "
             "Dig+Suicide loop model-checked by TLC against declarative Keep/Remove/Norm; every exported (document, selector list, expected results) "
-            "case replayed on the real plugins through Start and Do and compared as an ordered token sequence",
+            "case replayed on the real plugins through Start and Do (regular, child and child-parent events; wide objects up to 250 members; behind the real split plugin) and compared as an ordered token sequence",
             "TLC shows over the whole small scope (8 families; 0.49 M cases quick, 3.6 M thorough) that the transcribed algorithms equal the naive "
             "project/subtract functions exactly with an order-preserving delete and up to member order under the named deviation D_SwapDelete; both "
             "real plugins are run on every case with user-written selector strings.",
@@ -83,7 +83,7 @@ CHECKS = {
             "JSON validity is structural; clickhouse/postgres/s3/socket/stdout outputs not covered; three known findings.", "DESIGN.md §6 C19"),
     "C20": ("TLA+ transcription of checkInputBytes/In and of Antispammer.IsSpam/Maintenance model-checked by TLC against declarative admission "
             "invariants; every exported size case and every maximal arrival/maintenance history replayed on the real Pipeline.In / Antispammer "
-            "step by step (ASCII, multi-byte UTF-8 and binary bytes at the cut position)",
+            "step by step (ASCII, multi-byte UTF-8 and binary bytes at the cut position); pipeline-scheduled maintenance on running pipelines; CRI decoder path with the antispam on/off; exception lists as sequences; rule evaluation read-only on the record",
             "TLC proves on the small-scope space (record lengths 0..M+2 x newline x max_event_size x cut_off x mark x decodable x committed; all "
             "arrival/maintenance histories up to 8-11 steps, thresholds 1-3/disabled, unban 4 and 1, exception/rule classes) that the transcription "
             "refuses, cuts, marks, bans and unbans only as the statement allows; every case is executed on the real code and verdict, delivered bytes, "
@@ -113,7 +113,7 @@ CHECKS = {
     "C10": ("TLC model checking of KafkaInput.tla (routing x completion orders; spread routing named as deviation) + traces of the real "
             "kafka Plugin.Commit / pconsumer.consume / franz-go marks in a real spread-mode pipeline validated by TLC (KafkaMon.tla) + the real "
             "Plugin.Start / Commit / Stop against an in-process Kafka broker (harness-owned, speaks the wire protocol) whose OffsetCommit requests "
-            "TLC judges (BrokerCommit rule) + packing boundary cases replayed on the real assemble/disassemble functions",
+            "TLC judges (BrokerCommit rule; back pressure with small fetch responses; records tracked from the hand-out; leader-epoch rewinds; split records) + packing boundary cases replayed on the real assemble/disassemble functions",
             "MarkSafe/MarkOwn/MarkMonotone are checked exhaustively on the design (all routings of <=4-5 records over 2 partitions and 2-3 "
             "processors, all completion orders); the real plugin's marks are read from a real franz-go client after every Commit and each "
             "recorded step is checked by TLC against the same clauses; spread routing violates MarkSafe by design (known finding D10).",
@@ -122,7 +122,7 @@ CHECKS = {
             "DESIGN.md §6 C10"),
     "C03": ("TLC model checking of FileInput.tla (every kill instant, sync/async persistence, all stream assignments; the code's resume rule as "
             "named deviation D3, residual and repaired-rule configs, mechanism switches) + TLC-generated kill/restart histories performed on the "
-            "REAL file input in a child process that is really SIGKILLed and restarted, rotation by rename (also of every line, at discovery), truncation (also while down), recycled-inode, slow-writer and append-storm (appends at random instants under 1 ms maintenance) families; two-run "
+            "REAL file input in a child process that is really SIGKILLed and restarted, rotation by rename (also of every line, at discovery), truncation (also while down), recycled-inode, slow-writer append-storm (appends at random instants under 1 ms maintenance) and remove_after families; FileDiscovery.tla and TruncCheck.tla specify discovery under rotation and truncation detection next to a concurrent reader (old code = rejected mutants); two-run "
             "histories judged by TLC (FileInputMon.tla)",
             "AtLeastOnce is checked exhaustively on the design for every kill point at the model's granularity; the resume rule's hole (D3) is "
             "reproduced at design level and on the real input, the residual and a repaired rule are proven in small scope, and every mechanism "
@@ -131,12 +131,12 @@ CHECKS = {
             "Trusted: harness-owned gate action and durable output around the real file input + pipeline; kill instants at gate/commit "
             "granularity (the save protocol itself is C07); one file plus rotated predecessors; a line counts as lost after 6 s without progress; "
             "symlinks, lz4, remove_after, offsets_op tail/reset not covered.", "DESIGN.md §6 C03"),
-    "C04": ('TLC model checking incl. liveness under fairness of detailed protocol specs (EventPoolLowMem/EventPoolStd: atomics, lock, cond-var, heartbeat; StreamProto: stream/streamer at mutex granularity incl. the two-step stream.commit mutant; ProcGrowth: processor-pool growth) and of Pipeline.tla, each mechanism shown necessary by a spec mutant; TLC-constructed windows replayed on the real code (lost wake-up through verif hook gates; put || tryUnblock on a blocked stream); attend / timeout-then-detach / progress runs of the real pipeline validated by TLC',
+    "C04": ('TLC model checking incl. liveness under fairness of detailed protocol specs (EventPoolLowMem/EventPoolStd: atomics, lock, cond-var, heartbeat; StreamProto: stream/streamer at mutex granularity incl. the two-step stream.commit mutant and the heartbeat goroutine's lifetime; ProcGrowth: processor-pool growth) and of Pipeline.tla, each mechanism shown necessary by a spec mutant; TLC-constructed windows replayed on the real code (lost wake-up through verif hook gates; put || tryUnblock on a blocked stream); attend / timeout-then-detach / progress runs of the real pipeline validated by TLC',
             'NoWedge, NoEventLost, ChargedRight and eventual completion are model-checked for both pool protocols, the stream protocol and the pipeline model under weak fairness; the windows TLC constructs are reproduced deterministically on the real pools and streams and progress must resume within a bound; real pipeline runs at capacity 1, single processor, time-out-only flushes, timer-only batch flushes (also of a batch that holds only a split parent), back-to-back charges of K streams and detach-after-time-out sequences must reach idle with every stream attended.',
             'Trusted: bounded-time is judged by generous wall-clock bounds with heartbeat intervals shortened in-package; Go scheduler fairness; the stream protocol is replayed at the granularity of Pipeline.tla plus the constructed windows, StreamProto itself is design level.', "DESIGN.md §6 C04"),
     "C06": ("TLA+ transcription of the read loop model-checked against a declarative line/offset oracle (TLC, exhaustive "
             "small scope); every TLC-exported case replayed on the real worker.work and compared, alone and in groups of 2-3 files served by one "
-            "worker goroutine (WorkerTails.tla), and a sample end to end through the real file plugin inside a real pipeline with the size limit",
+            "worker goroutine (WorkerTails.tla), a sample end to end through the real file plugin inside a real pipeline with the size limit, and real .lz4 files resumed from every saved line-end offset",
             "TLC proves on the whole small-scope case space (all contents over {x,\\n} up to the bound x all splits into appends x "
             "all buffer sizes x size limits x cut_off x resume offsets) that the transcribed read loop hands over exactly the "
             "expected (offset, bytes) calls; the real worker.work is then executed on real files for those cases and must produce "
